@@ -9,4 +9,39 @@ impl<Value: Clone> SubTimeline<Value> {
     pub closed spec fn spec_frames(&self) -> Seq<SplitKeyframe<Value>> { self.frames@ }
     pub closed spec fn spec_map(&self) -> Seq<usize> { self.frame_index_map@ }
     pub closed spec fn spec_override(&self) -> Option<SplitKeyframe<Value>> { self.start_frame_override }
+
+    /// Representation invariant (index safety part): either nothing at all, or a non-empty frame
+    /// list with every map entry indexing into it; a substituted start frame needs frames.
+    pub closed spec fn wf(&self) -> bool {
+        &&& (self.frames@.len() == 0 ==> self.frame_index_map@.len() == 0 && self.start_frame_override.is_none())
+        &&& forall|i: int| 0 <= i < self.frame_index_map@.len() ==> (#[trigger] self.frame_index_map@[i] as int) < self.frames@.len()
+    }
+
+    /// C10: frame `index`, with the substituted start frame standing in for index 0 iff enabled.
+    pub closed spec fn spec_frame_at(&self, index: int, enable_start_override: bool) -> Option<&SplitKeyframe<Value>> {
+        if enable_start_override && index == 0 && self.start_frame_override.is_some() {
+            Some(&self.start_frame_override.unwrap())
+        } else if 0 <= index < self.frames@.len() {
+            Some(&self.frames@[index])
+        } else {
+            None
+        }
+    }
+
+    /// The pair of frames the lookup selects for master index `hint` (which two neighbours).
+    pub closed spec fn spec_bounding(&self, t: f32, hint: int, enable_start_override: bool) -> Option<[&SplitKeyframe<Value>; 2]> {
+        let k = self.frame_index_map@[hint] as int;
+        let at = self.spec_frame_at(k, enable_start_override).unwrap();
+        if flt(t, at.normalized_time) {
+            if k > 0 {
+                Some([self.spec_frame_at(k - 1, enable_start_override).unwrap(), at])
+            } else {
+                None
+            }
+        } else if k == self.frames@.len() - 1 {
+            Some([at, at])
+        } else {
+            Some([at, &self.frames@[k + 1]])
+        }
+    }
 }
